@@ -1,5 +1,5 @@
-From PV.Model Require Import Machine Relocs.
+From PV.Model Require Import Machine Relocs Checked.
 From PV.Spec Require Import RelocSpec.
 Require Import ExtrOcamlBasic.
 Extraction Language OCaml.
-Extraction "../ocaml/gen/c14_model.ml" blocks fold_pairs build parse_ok build_pre build_ok flat_spec.
+Extraction "../ocaml/gen/c14_model.ml" blocks fold_pairs build parse_ok build_pre build_ok flat_spec reloc_parse_chk fold_pairs_chk.
